@@ -191,15 +191,19 @@ def run_check(check, tier="quick", seed=0, workers=None, replay=None, log=sys.st
         by_key.setdefault((kind, str(detail)[:200]), []).append(model)
     replay_dir = os.path.join(VERIF, "evidence", "replay")
     n_cases = 0
+    outside_cases = collections.Counter()
     for (kind, detail), models_ in by_key.items():
         tried = 0
         if hasattr(check, "rank"): models_.sort(key=check.rank)
         for model in models_[:3]:
             case = check.case(kind, detail, model)
             if case is None: continue
-            tried += 1
             n_cases += 1
             ok, role, text = check.confirm(runner, case)
+            if ok is None:                 # the candidate lies outside the claim (e.g. no input text yields these tokens)
+                outside_cases[role] += 1
+                continue
+            tried += 1
             if ok:
                 if (pid, role) in known_roles: known_hit[role] = (text, case)
                 elif role not in confirmed: confirmed[role] = (text, case)
@@ -265,7 +269,7 @@ def run_check(check, tier="quick", seed=0, workers=None, replay=None, log=sys.st
         "path_outcomes": dict(outcomes), "solver_queries": stats["queries"], "solver_time_s": round(solver_s, 2), "solver_unknown": stats["unknown"],
         "interpreter_steps": stats["steps"], "mir_sha256": world.mir_sha, "mir_dump_s": round(world.dump_s, 1),
         "candidate_counterexamples": len(by_key), "native_replays": n_cases, "confirmed_roles": sorted(confirmed), "known_finding_roles": sorted(known_hit),
-        "unconfirmed": len(unconfirmed), "translator_disagreements": len(disagreements), "unsupported_paths": sum(unsupported.values()),
+        "unconfirmed": len(unconfirmed), "candidates_outside_claim": dict(outside_cases), "translator_disagreements": len(disagreements), "unsupported_paths": sum(unsupported.values()),
         "unsupported_reasons": [w for w, _ in unsupported.most_common(5)], "truncated": truncated, "exhaustive": not truncated and not unsupported,
         "vacuity_canary": canary if canary is not None else "n/a", "workers": workers, "explore_s": round(explore_s, 1),
         "verdict": {0: "holds within the bounds", 1: "violation", 2: "inconclusive"}[rc],
